@@ -12,12 +12,14 @@ DIRECT = {
     'C13': {'dir-vs-live', 'iter-vs-spec', 'table-status', 'api-error', 'harness-crash'},
     'C14': {'inv-false-on-observed', 'layout-mismatch', 'meta-mismatch', 'api-error', 'harness-crash', 'table-status'},
 }
+DIRECT['C19'] = {'read-vs-spec', 'read-vs-spec-after-repair', 'scan-vs-spec', 'iter-vs-spec', 'api-error', 'harness-crash', 'table-status', 'dir-vs-live', 'layout-mismatch'}
 INDIRECT = {
     'C01': {'replica-divergence', 'step-not-guarded', 'step-output-differs', 'inv-false-on-observed'},
     'C06': {'replica-divergence', 'step-not-guarded', 'step-output-differs', 'inv-false-on-observed'},
     'C07': {'replica-divergence', 'inv-false-on-observed', 'step-output-differs'},
     'C13': {'step-not-guarded'},
     'C14': {'step-not-guarded', 'step-output-differs', 'replica-divergence'},
+    'C19': {'step-not-guarded', 'step-output-differs'},
 }
 
 def snapshot_only(p):
@@ -33,7 +35,10 @@ def snapshot_only(p):
 def one_history(args):
     k2, model, base, idx, seed, profile, nops, fixed = args
     rng = vlib.Rng(seed)
-    cfg, ops, keys = histgen.gen_history(rng, profile, nops, cfg=histgen.gen_config(rng, fixed))
+    if isinstance(profile, tuple):      # a fixed corpus history: (cfg, ops)
+        cfg, ops = profile; keys = []
+    else:
+        cfg, ops, keys = histgen.gen_history(rng, profile, nops, cfg=histgen.gen_config(rng, fixed))
     dbdir = os.path.join(base, 'db%d' % idx)
     t0 = time.time()
     rc, out, err = k2lib.run_c(k2, dbdir, cfg, ops)
@@ -50,7 +55,8 @@ def run_k2(rep, prop, tier, seed, profile, nhist, nops, fixed=None, extra_histor
     k2 = vlib.build_k2(out, 'nothread')
     model = vlib.ensure_model()
     rng = vlib.Rng(seed ^ 0xC0FFEE)
-    jobs = [(k2, model, out, i, rng.next(), profile, nops, fixed) for i in range(nhist)]
+    jobs = [(k2, model, out, 1000 + i, 0, h, nops, fixed) for i, h in enumerate(extra_histories)]   # corpus first
+    jobs += [(k2, model, out, i, rng.next(), profile, nops, fixed) for i in range(nhist)]
     with ThreadPoolExecutor(vlib.NCPU) as ex:
         results = list(ex.map(one_history, jobs))
     totals = {}
@@ -78,12 +84,13 @@ def run_k2(rep, prop, tier, seed, profile, nhist, nops, fixed=None, extra_histor
             if not (direct or indirect):
                 totals['other_property_problems'] = totals.get('other_property_problems', 0) + 1
                 continue
-            if reported < 3:
+            sig = 'C19:get-after-repair-stale-level0-order' if kind == 'read-vs-spec-after-repair' else None
+            if reported < 3 or sig:
                 reported += 1
                 rep.violation({'kind': 'K2-' + kind, 'problem': p, 'options': r['cfg'],
                                'history': r['ops'][:p['call'] + 1] if isinstance(p.get('call'), int) else r['ops'],
                                'history_seed': r['seed'], 'profile': profile},
-                              suffix='' if direct else 'no-failing-input-found')
+                              signature=sig, suffix='' if direct else 'no-failing-input-found')
     rep.cov['k2'] = totals
     rep.cov['traces_validated_against_impl'] = len(results)
     rep.cov['config_distribution'] = cfg_hist
